@@ -110,6 +110,8 @@ class World:
                 d[key][(Ellipsis,) + tuple(idx)] = np.nan
         for k in c.get("extra_inputs", []):
             # additional documented inputs: a velocity / Lorentz factor field
+            if k == "tracer":
+                d["tracer"] = 0.5 + 0.25 * np.sin(fd.x + 2 * fd.y - fd.z)
             if k == "vel":
                 s = 0.3
                 nrm = np.sqrt(ex["gamma"][0, 0])
@@ -138,6 +140,15 @@ class World:
                 v.setflags(write=False)
         if freeze == "load_data":
             sim = {k: [None, v] for k, v in data.items()}
+            rel.load_data(sim, 1)
+        elif freeze == "hand_then_load_data":
+            # some inputs set by hand first (e.g. a lapse missing from the
+            # simulation output), the rest loaded: load_data freezes the
+            # data dictionary
+            keys = sorted(data)
+            for k in keys[::2]:
+                rel.data[k] = data[k]
+            sim = {k: [None, data[k]] for k in keys[1::2]}
             rel.load_data(sim, 1)
         else:
             for k, v in data.items():
@@ -315,7 +326,7 @@ def strategies():
             matter = draw(st.sampled_from(["fluid", "Tdown4"]))
         else:
             matter = "Tdown4"
-        if matter == "Tdown4" and draw(st.booleans()):
+        if matter in ("Tdown4", "fluid") and draw(st.booleans()):
             Lambda = draw(f(-0.3, 0.3))
         form = draw(st.sampled_from(["components", "tensors"]))
         if form == "components":
@@ -341,10 +352,12 @@ def strategies():
                    tetrad=draw(st.sampled_from(["quasi-Kinnersley",
                                                 "fluid"])),
                    clear_every=clear_every, mem_gb=mem_gb, lmax=2,
-                   extra_inputs=(["vel"] if matter == "Tdown4"
-                                 and draw(st.booleans()) else []),
-                   freeze=draw(st.sampled_from(["freeze_data",
-                                                "load_data"])))
+                   extra_inputs=((["vel"] if matter == "Tdown4"
+                                  and draw(st.booleans()) else [])
+                                 + (["tracer"] if draw(st.booleans())
+                                    else [])),
+                   freeze=draw(st.sampled_from(["freeze_data", "load_data",
+                                                "hand_then_load_data"])))
         if draw(st.integers(0, 3)) == 0:
             cand = [k for k in ("kxx", "kyz", "Kdown3", "gxx", "gammadown3",
                                 "alpha", "betay", "betaup3", "Tdown4")]
@@ -358,7 +371,8 @@ def strategies():
                 [0, 0.002, 0.1, 1, 10])) for k in ks}
         return cfg
 
-    weighted = (ALL_KEYS + GUARD_KEYS * 6 + GUARD_DEPENDANTS * 3)
+    weighted = (ALL_KEYS + GUARD_KEYS * 6 + GUARD_DEPENDANTS * 3
+                + ["tracer"] * 4)
 
     def get_op():
         return st.sampled_from(weighted).map(
